@@ -52,6 +52,54 @@ def plain_cost(torch, nn, model, sites, spec, names, generic_for=()):
     return tot
 
 
+# ----------------------------------------------------------------------------- independent reference of the five metrics
+REF_SHARED = {'params': True, 'params_no_bias': True, 'ops': False, 'ops_no_bias': False, 'gap8_latency': True}
+
+
+def _cdiv(a, n):
+    return (a + n - 1) // n
+
+
+def ref_layer_cost(name, L, shp):
+    """integer reference of one metric on one plain layer (attributes `L`, full output shape `shp`), written from the
+    documented meaning of the cost models and kept in step with Model/PitCost.v: output_shape[2] is the first
+    spatial axis (rows); GAP8 iterates ceil(rows/2) * ceil(columns/8) times over a regular convolution"""
+    kind, cin, cout, ks, b = L['kind'], L['cin'], L['cout'], L['ks'], (1 if L['bias'] else 0)
+    dw = kind != 'linear' and L['groups'] == cin and L['groups'] == cout
+    sp = list(shp[2:])
+    kprod = 1
+    for k in ks:
+        kprod *= k
+    spatial = 1
+    for d in sp:
+        spatial *= d
+    if name in ('params', 'ops'):
+        c = cout * (cin + b) if kind == 'linear' else (cin * (kprod + b) if dw else cout * (cin * kprod + b))
+        return c * (spatial if (name == 'ops' and kind != 'linear') else 1)
+    if name in ('params_no_bias', 'ops_no_bias'):
+        c = cin * cout if kind == 'linear' else (cin * kprod if dw else cin * cout * kprod)
+        return c * (spatial if (name == 'ops_no_bias' and kind != 'linear') else 1)
+    if name == 'gap8_latency':
+        if kind == 'linear':
+            return _cdiv(cin, 2) * _cdiv(cout, 4)
+        if kind == 'conv1d':
+            return 0
+        if dw:
+            return 4 * _cdiv(cout, 4) * sp[0] * sp[1] * kprod
+        return _cdiv(sp[0], 2) * _cdiv(sp[1], 8) * (kprod * cin * 2 + _cdiv(cout, 4) * (5 + _cdiv(kprod * cin, 4) * 14 + 10))
+    raise KeyError(name)
+
+
+def ref_cost(name, layers, counted):
+    """layers: {module name: attrs + 'sites'}"""
+    tot = 0
+    for nm, L in layers.items():
+        if nm in counted and L['sites']:
+            for shp in (L['sites'][:1] if REF_SHARED[name] else L['sites']):
+                tot += ref_layer_cost(name, L, shp)
+    return tot
+
+
 def layer_attrs(nn, mod):
     if isinstance(mod, nn.Linear):
         return {'kind': 'linear', 'cin': mod.in_features, 'cout': mod.out_features, 'ks': [], 'groups': 1, 'bias': mod.bias is not None}
@@ -296,6 +344,7 @@ def net_case(torch, seed, opts=None):
         counted = [ln for ln, layer in uniq if isinstance(layer, PITModule) or full]
         o['counted'] = counted
         o['orig_plain'] = {n: plain_cost(torch, nn, m, sites0, specs_all[n], counted) for n in all_names}
+        o['orig_ref'] = {n: ref_cost(n, orig_layers, counted) for n in all_names}
         o['open'] = read_costs(p, names, single)
         set_masks(torch, rng, p, style, tpat)
         o['switches'] = []
@@ -341,6 +390,7 @@ def net_case(torch, seed, opts=None):
                 exp_layers[nm] = dict(layer_attrs(nn, mod), sites=sites1[nm], numel=numel_of(nn, mod))
         o['exported'] = exp_layers
         o['exp_plain'] = {n: plain_cost(torch, nn, e, sites1, specs_all[n], counted) for n in all_names}
+        o['exp_ref'] = {n: ref_cost(n, exp_layers, counted) for n in all_names}
         o['degenerate'] = degenerate_layers(o)
         o['exp_plain_generic'] = {n: plain_cost(torch, nn, e, sites1, specs_all[n], counted, generic_for=o['degenerate']) for n in all_names}
         o['dw_pruned'] = [L['name'] for L in layers if L['search'] and L['kind'] != 'linear' and L['groups'] > 1 and L['groups'] == L['cin'] == L['cout'] and L['summary']['out_features'] < L['cout']]
